@@ -421,6 +421,24 @@ func (g *Gen) dur() time.Duration {
 
 // ---- Any ----
 
+// anyPackable: the table entries of the messages the interface registry resolves, other than the two
+// subscription kinds (set by SetAnyPackable before generating; empty = that case is skipped).
+var anyPackable []tableEntry
+
+// SetAnyPackable derives anyPackable from the registry's resolvable names (AnyTypes).
+func SetAnyPackable(names []string) {
+	want := map[string]bool{}
+	for _, n := range names {
+		want[n] = true
+	}
+	anyPackable = nil
+	for _, e := range typeTable {
+		if want[e.name] && e.name != "sentinel.subscription.v2.NodeSubscription" && e.name != "sentinel.subscription.v2.PlanSubscription" {
+			anyPackable = append(anyPackable, e)
+		}
+	}
+}
+
 // subscription generates a random Node- or PlanSubscription that marshals.
 func (g *Gen) subscription(depth int) Msg {
 	for try := 0; ; try++ {
@@ -456,7 +474,29 @@ func (g *Gen) any(depth int) *codectypes.Any {
 		}
 		return a
 	}
-	switch g.r.Intn(4) {
+	switch g.r.Intn(6) {
+	case 4, 5:
+		// any other implementation the interface registry resolves (the requests and responses of the
+		// message services): at the level of the codec an Any may hold it, and most of them have no
+		// Status field, so this is the Any whose JSON round trip SUCCEEDS
+		if len(anyPackable) > 0 {
+			for try := 0; try < 20; try++ {
+				m := anyPackable[g.r.Intn(len(anyPackable))].new()
+				g.fillStruct(reflect.ValueOf(m).Elem(), depth)
+				if _, err := m.Marshal(); err != nil {
+					continue
+				}
+				a, err := codectypes.NewAnyWithValue(m)
+				if err != nil {
+					panic(err)
+				}
+				if g.r.Intn(2) == 0 { // half of them without the cached value
+					return &codectypes.Any{TypeUrl: a.TypeUrl, Value: a.Value}
+				}
+				return a
+			}
+		}
+		fallthrough
 	case 0:
 		// registered URL, valid bytes, no cached value
 		m := g.subscription(depth)
